@@ -15,6 +15,7 @@ package main
 import (
 	"bytes"
 	"fmt"
+	"os"
 	"sort"
 	"sync"
 	"sync/atomic"
@@ -192,6 +193,10 @@ func runWalk(w Walk) (stats map[string]int, obs []kwalk, failure string) {
 			failure = fmt.Sprintf("panic during the backward walk: %v", x)
 		}
 	}()
+	if os.Getenv("C20_NOPOISON") != "" {
+		// measuring what the address observations alone catch: the client only looks
+		w.Poison, w.PoisonK = false, false
+	}
 	rng := vlib.NewRNG(w.Seed)
 	stor := vstor.New(false)
 	o := &opt.Options{
